@@ -4,6 +4,7 @@ import (
 	"fmt"
 	"go/ast"
 	"go/types"
+	"math/big"
 	"strings"
 
 	"cachelint/poly"
@@ -22,13 +23,14 @@ func checkC11(c *Ctx) {
 		"TTL handed out under UnlimitedTTL; (R11.4) the Trait that owns that counter and the janitor goroutine is never copied by value " +
 		"(a copy would split the counter from the goroutine); (R11.5) entries are removed from storage only by Delete, DeleteAll, " +
 		"deleteExpired and the evict functions (eviction is gated by C12)."
-	r.Rule("R11.1", "cleanup boundary = now − DeleteExpiredAfter", 1)
+	r.Rule("R11.1", "cleanup boundary = now − DeleteExpiredAfter (default 24h exactly when 0)", 2)
 	r.Rule("R11.2", "delete ⇔ E≠0 ∧ E<boundary, on the iterated entry, test and delete in one critical section (3 backends)", 3)
 	r.Rule("R11.3", "scan skipped only for UnlimitedTTL with expirationsSet==0; Trait.TTL increments expirationsSet for every non-zero TTL under UnlimitedTTL", 2)
 	r.Rule("R11.4", "Trait is never copied by value after construction", 1)
 	r.Rule("R11.5", "who may delete from storage", 1)
 	r.NotDecided = []string{"when the janitor runs", "interplay with eviction (C12)"}
 	c.c11Boundary()
+	c.defaultsRule("R11.1", map[string]*big.Rat{"DeleteExpiredAfter": big.NewRat(24*3600*1000000000, 1)})
 	for _, b := range backends {
 		c.c11DeleteExpired(b)
 	}
